@@ -25,7 +25,8 @@ META = {
         'table; (bounds) every comparison between row bounds is made on '
         'numbers, not on the digit strings the parts carry, and sizes/index '
         'ranges are inclusive - the tests that decide which cells a range is '
-        'wired to.'),
+        'wired to.'
+        ' (extlink) the table behind [n]Sheet!A1 is keyed by the 1-based position in the complete list of external links; (cachekey) a per-run cache in the loader is keyed by everything the cached value is computed from.'),
     'not_decided': (
         'That each formula cell holds the value of its formula (the fixed '
         'point), range/blank wiring and equality of the two load paths.'),
@@ -243,6 +244,15 @@ def _bounds(ctx, prop):
     return _retag(rule_inclusive(ctx), prop, prop + '.bounds')
 
 
+def _extlink(ctx):
+    """Cross-workbook references by index ([n]Sheet!A1) reach the n-th linked
+    workbook: the rule of C04 is a necessary condition for the cross-workbook
+    clause here as well."""
+    from .c04 import rule_extlink
+    from .c09 import _retag
+    return _retag(rule_extlink(ctx), 'C03', 'C03.extlink')
+
+
 def _refs(ctx):
     from .c09 import rule_refs, _retag
     return _retag(rule_refs(ctx), 'C03', 'C03.refs')
@@ -257,5 +267,5 @@ def run(ctx):
     return [rule_ord(ctx, funcs, prop='C03', rule='C03.ord', floor=5),
             rule_pair(ctx),
             rule_snapshot(ctx, 'C03', 'C03.snapshot'),
-            _refs(ctx), _bounds(ctx, 'C03'),
+            _refs(ctx), _bounds(ctx, 'C03'), _extlink(ctx),
             rule_cachekey(ctx, 'C03', 'C03.cachekey', SCOPE)]
